@@ -65,8 +65,9 @@ ASSUMPTIONS = [
     "non-existing stream in the URL (the handlers accept a mismatched pair: the model's delMedia/editMedia take both ids)",
     "well-formed arguments: names of [a-z0-9_]+, hexadecimal key ids, one Period per pid and one track id per Period "
     "within a single request (malformed input is C16)",
-    "management operations answering 5xx (duplicate stream directory: IntegrityError) are modelled as refusals that "
-    "leave the store unchanged; the property's 5xx clause is about manifests of listed streams",
+    "management operations answering 5xx (e.g. a violated UNIQUE constraint) are modelled as refusals that leave the "
+    "store unchanged; adding a stream whose directory exists replaces that stream with everything it owns (/repo 9090ca4);"
+    " the property's 5xx clause is about manifests of listed streams",
     "manifests requested after every step for every listed stream and multi-period stream: hand_made.mpd in vod and "
     "live mode, with and without timeline=1 (streams also vod with drm=all); media "
     "requested: init and first media segment (live and vod) of every stream's timing-reference file",
@@ -383,15 +384,27 @@ def gen_op(rng, rows):
         cur = next((s for s in streams if s["pk"] == spk), None)
         d = cur["dir"] if cur and rng.random() < .7 else rng.choice(DIRS)
         own = [f["name"] for f in indexed if f["stream"] == spk]
+        foreign = [f["name"] for f in files if f["stream"] != spk]
         r = rng.random()
-        if own and r < .6:
+        if own and r < .5:
             tref = rng.choice(own)
-        elif r < .75:
+        elif r < .62:
             tref = ""
-        elif files and r < .92:
+        elif foreign and r < .85:
+            tref = rng.choice(foreign)                  # a media file of ANOTHER stream
+        elif files and r < .93:
             tref = rng.choice(files)["name"]
         else:
             tref = "nosuch"
+        # every accepted spelling of the reference: the bare media name, the file name (the populate script sends
+        # `<name>.mp4`), another extension, the name of the blob file (differs from the media name after an edit)
+        s = rng.random()
+        if tref and s < .3:
+            tref += ".mp4"
+        elif tref and s < .4:
+            tref += ".m4v"
+        elif tref and s < .5 and rows["blobs"]:
+            tref = rng.choice(rows["blobs"])["filename"]
         return ("es", spk, d, rng.choice(TITLES), tref, rng.randrange(2))
     if k == "em":
         f = rng.choice(indexed) if indexed and rng.random() < .8 else None
@@ -718,6 +731,25 @@ def grid_histories(thorough: bool):
         h += [("ak", K2, True, route, "dashes"), ("ix", 2), ("ak", K2, False, 1 - route, "0x"), ("es", 1, "alpha", "T3", "ea", 1),
               ("as", "Alpha", "T3", route), ("as", "alpha", "T3", 1), ("es", 2, "alpha", "T3", "", 1), ("ds", 1, 0)]
         out.append(h)
+    # 5. references in every accepted spelling that name an object of ANOTHER owner: the timing reference of a stream
+    #    (bare name, file name, other extension, blob name) naming its own file, a file of the other stream, an edited
+    #    file and nothing, through both routes; a Period of one multi-period stream addressed from another; then the
+    #    referenced objects are deleted and multi-period streams are built on what is left
+    P = lambda pk, pid, s, o, tr, st=0, du=0, fits=True: (pk, pid, s, o, tuple(tr), st, du, fits)   # noqa: E731
+    h = [("as", "alpha", "Title_one"), ("as", "bravo", "Title_two"), ("up", 1, "va", ".mp4", "v1"), ("ix", 1),
+         ("up", 2, "vb", ".mp4", "v2"), ("ix", 2), ("up", 2, "ab", ".m4v", "a1"), ("ix", 3), ("em", 2, 3, 5)]
+    for route in (0, 1):
+        for tref in ("va", "va.mp4", "va.m4v", "vb", "vb.mp4", "vb.m4v", "ab", "ab.m4v", "ab_01.m4v", "ab_01", "nosuch.mp4",
+                     "va.mp4.mp4", ""):
+            h.append(("es", 1, "alpha", "Title_one", tref, route))
+        h += [("es", 2, "bravo", "Title_two", "va.mp4", route), ("es", 2, "bravo", "Title_two", "vb.mp4", route)]
+    h += [("es", 1, "alpha", "Title_one", "va.mp4", 1),
+          ("am", "mpsone", "MPS_one", (P(None, "p1", 1, 1, [1]), P(None, "p2", 2, 2, [1, 5]))),
+          ("am", "mpstwo", "MPS_two", (P(1, "p1", 2, 1, [1]), P(None, "p3", 1, 3, [1]))),      # p1 belongs to mpsone
+          ("es", 1, "alpha", "Title_one", "vb.mp4", 0), ("dm", 1, 2, 1), ("es", 1, "alpha", "Title_one", "vb.mp4", 1),
+          ("am", "mpsthree", "MPS_one", (P(None, "p1", 2, 1, [1]),)), ("dm", 2, 1, 0),
+          ("am", "mpsfour", "MPS_one", (P(None, "p1", 1, 1, [1]),)), ("xm", "mpsone"), ("ds", 2, 1), ("ds", 1, 0)]
+    out.append(h)
     return out
 
 
